@@ -26,9 +26,45 @@ def built(S, cls, args, declared):
     from pyvc.engine import Unsupported
 
     try:
-        return S.new(cls, *args)
+        o = S.new(cls, *args)
     except Unsupported:
-        return S.obj(cls, **declared)
+        o = S.obj(cls, **declared)
+    # a view is a value: no accessor may write to the view object or to anything its constructor allocated for it (obligations
+    # safety/frame-attr-write, safety/frame-write) -- so every later access finds it as the constructor left it, which is what closes the
+    # argument over histories.  What the view merely refers to (the owner, handed in as an argument) keeps the setup's own frame.
+    given = set()
+
+    def reach(v):
+        if id(v) in given or isinstance(v, (int, float, str, Sym, type(None))):
+            return
+        given.add(id(v))
+        if isinstance(v, Obj):
+            for x in v.fields.values():
+                reach(x)
+        elif isinstance(v, (PList, PDict)) and v.items is not None:
+            for x in (v.items.values() if isinstance(v, PDict) else v.items):
+                reach(x)
+        elif isinstance(v, (tuple, list)):
+            for x in v:
+                reach(x)
+
+    for a in args:
+        reach(a)
+
+    def freeze(v):
+        if id(v) in given or not isinstance(v, (Obj, PList, PDict, SArr, NArr)):
+            return
+        given.add(id(v))
+        v.frozen = True
+        if isinstance(v, Obj):
+            for x in v.fields.values():
+                freeze(x)
+        elif isinstance(v, (PList, PDict)) and v.items is not None:
+            for x in (v.items.values() if isinstance(v, PDict) else v.items):
+                freeze(x)
+
+    freeze(o)
+    return o
 
 
 def node_obj(S, t, idx=None, cls=None):
